@@ -22,9 +22,29 @@ type DataSpec struct {
 	Len  int
 	Seed uint64
 	Gen  bool
+	// Holes: LCG bytes in which block i (of Blk bytes) is all zero when bit i%64 of Mask is set
+	// (sparse payloads: zero runs at block boundaries, all-zero tails, all-zero objects)
+	Holes bool
+	Blk   int
+	Mask  uint64
 }
 
 func (d DataSpec) Bytes() []byte {
+	if d.Holes {
+		b := lcgBytes(d.Len, d.Seed)
+		for i := 0; i*d.Blk < len(b); i++ {
+			if d.Mask>>(uint(i)%64)&1 == 1 {
+				end := (i + 1) * d.Blk
+				if end > len(b) {
+					end = len(b)
+				}
+				for j := i * d.Blk; j < end; j++ {
+					b[j] = 0
+				}
+			}
+		}
+		return b
+	}
 	if d.Gen {
 		return lcgBytes(d.Len, d.Seed)
 	}
@@ -32,6 +52,9 @@ func (d DataSpec) Bytes() []byte {
 }
 
 func (d DataSpec) String() string {
+	if d.Holes {
+		return fmt.Sprintf("z:%d:%d:%d:%d", d.Len, d.Seed, d.Blk, d.Mask)
+	}
 	if d.Gen {
 		return fmt.Sprintf("g:%d:%d", d.Len, d.Seed)
 	}
@@ -105,6 +128,9 @@ type DI struct {
 	Opts []DIOpt
 	Data DataSpec
 	Fail int // -1: reader does not fail; n: fails after n bytes
+	// Src != 0: the content is streamed from the live object with that ID of the image being
+	// modified (d.GetReader() of the same handle); Data is filled in at execution time
+	Src uint32
 }
 
 func (d DI) Lines() []string {
@@ -217,6 +243,7 @@ type Op struct {
 	Cli       *CliOp // C15: one siftool invocation
 	CliExists bool   // the image file existed before it
 	IO    bool // C09: the model is asked for the operation's I/O plan (`io` lines)
+	St    *StOp // C14: one raw call on a bare backing store (no image)
 	// filled in by the executor
 	Now int64
 	Rnd []byte
@@ -275,6 +302,8 @@ func (o *Op) lines0() []string {
 		return []string{fmt.Sprintf("setoci id=%d text=%s t=%s now=%d", o.ID, hx(o.Text), o.T, o.Now)}
 	case "reload":
 		return []string{"reload"}
+	case "st":
+		return []string{o.St.line()}
 	case "obs":
 		l := "obs"
 		if o.Reload {
@@ -336,3 +365,31 @@ func b2i(b bool) int {
 
 // Short renders an op compactly for evidence samples and replay files.
 func (o *Op) Short() string { return strings.Join(o.Lines(), " ; ") }
+
+// StOp is one raw call on a bare backing store (sif.Buffer or *os.File), from the repertoire the
+// library issues: absolute seek, seek to end, non-empty write, in-range truncate, positioned read.
+type StOp struct {
+	Call string // new seek seekend write trunc read
+	Be   string // new: buf | file
+	Off  int64
+	N    int64
+	Data DataSpec
+}
+
+func (s *StOp) line() string {
+	switch s.Call {
+	case "new":
+		return fmt.Sprintf("stnew be=%s data=%s", s.Be, s.Data)
+	case "seek":
+		return fmt.Sprintf("stseek off=%d", s.Off)
+	case "seekend":
+		return "stseekend"
+	case "write":
+		return fmt.Sprintf("stwrite data=%s", s.Data)
+	case "trunc":
+		return fmt.Sprintf("sttrunc n=%d", s.N)
+	case "read":
+		return fmt.Sprintf("stread off=%d n=%d", s.Off, s.N)
+	}
+	panic("bad st call " + s.Call)
+}
